@@ -1356,10 +1356,22 @@ rrul_fill_wly(echs_instant_t *restrict tgt, size_t nti, rrulsp_t rr)
 	if (wd_mask) {
 		unsigned int w = echs_scale_wday(srcsca, y, m, d);
 
+		/* weeks begin on Mondays wherever in the week we start,
+		 * or else which weeks INTERVAL picks depends on the weekday
+		 * of DTSTART (and of the instant a refill resumes from) */
+		for (; w > MON; w--) {
+			if (!--d) {
+				if (!--m) {
+					y--;
+					m = 12U;
+				}
+				d = echs_scale_ndim(srcsca, y, m);
+			}
+		}
 		/* duplicate the wd_mask so we can just right shift it
 		 * and wrap around the end of the week */
 		wd_mask |= wd_mask << 7U;
-		/* zap to current day so increments are relative to DTSTART */
+		/* zap to current day so increments are relative to it */
 		wd_mask >>= w;
 		/* clamp wd_mask to exactly 7 days */
 		wd_mask &= 0b1111111U;
